@@ -210,9 +210,12 @@ def _rand_case(rng, nmax=10, maxops=25):
 
 def gen_cases(rng, tier):
     cases = list(_corner_cases())
-    n = 800 if tier == "quick" else 12000
+    n = 800 if tier == "quick" else 24000
     for _ in range(n):
-        cases.append(_rand_case(rng))
+        if tier != "quick" and rng.random() < 0.2:
+            cases.append(_rand_case(rng, nmax=12, maxops=32))
+        else:
+            cases.append(_rand_case(rng))
     return cases
 
 
